@@ -2,7 +2,7 @@
    Component-level theorems; they assume nothing about the network or the peers. *)
 From Coq Require Import ZArith List Bool Lia.
 From OF Require Import Base.Str Proto.Wire Proto.Receiver Proto.Receiver_Safety Proto.Receiver_Order
-                       Proto.Sender Proto.Sender_Safety.
+                       Proto.Receiver_Generic Proto.Receiver_Complete Proto.Receiver_Provenance Proto.Sender Proto.Sender_Safety.
 Import ListNotations.
 Open Scope Z_scope.
 
@@ -34,6 +34,25 @@ Theorem C02_min_send_id_monotone :
     (pubs o = [] \/ exists m, pubs o = [m] /\ min_send_id s <= m /\ min_send_id s' = m + 1).
 Proof. exact sstep_ok. Qed.
 Print Assumptions C02_min_send_id_monotone.
+
+(* Each delivered frame is the payload of a wire message that really was delivered to that source and
+   passed its SUB prefix filter, handed out under the topic the subscription maps the message's topic
+   to: nothing forged, nothing unsubscribed, exact topic mapping (non-balanced receivers, every item list). *)
+Theorem C02_payload_and_topic_map :
+  forall cid ll cs its data id bal,
+    In (ORet data id bal) (snd (rrun Repaired (init_receiver cid false ll cs) its)) ->
+    forall dst sm, In (dst, sm) data ->
+    exists i c m, nth_error cs i = Some c /\ In (IDeliver i m) its /\
+                  sub_match (subs_of (sc_mode c)) (w_wtopic m) = true /\
+                  sm = mk_stored i m /\ dst = tmap c (topic_of_wire (w_wtopic m)).
+Proof. exact receiver_provenance. Qed.
+Print Assumptions C02_payload_and_topic_map.
+
+(* hidden topics ('_' prefix) never pass a subscribe-all filter; visible ones always do *)
+Theorem C02_hidden_topics_filtered :
+  forall t, sub_match (subs_of SubAll) (wire_of_topic t) = negb (hidden t).
+Proof. exact suball_filter. Qed.
+Print Assumptions C02_hidden_topics_filtered.
 
 (* Non-vacuity: a duplicated request and a stale request around one publish; ids 0 and 1 go out once each. *)
 Theorem C02_nonvacuous :
